@@ -119,6 +119,10 @@ func (rn *runner) usable(what, key string, mk func() *tls.ClientHelloSpec, input
 		berr = uc.BuildHandshakeState()
 	})
 	rn.c.Count("usable:" + what)
+	if p && what == "raw-invalid-shape" {
+		rn.c.Count("usable:invalid-shape-panic:" + clip(fmt.Sprint(pv), 60))
+		return
+	}
 	if p {
 		rn.c.Count("fail:usable")
 		rn.c.Fail("usable/"+panicKind(pv), "ApplyPreset + BuildHandshakeState panicked on a spec the importer returned ("+key+")",
@@ -173,7 +177,13 @@ func (rn *runner) rawCase(kind, key string, f flags, raw []byte, toCoq bool) {
 	rn.c.Count("raw:" + kind)
 	if spec != nil {
 		rn.c.Count("raw-ok:" + kind)
-		rn.usable("raw", key, func() *tls.ClientHelloSpec {
+		what := "raw"
+		if !shapeValid(raw) {
+			// accepted, but not a valid ClientHello (repeated extension type, or pre_shared_key not last):
+			// the usability clause does not speak about it; panics there are only counted
+			what = "raw-invalid-shape"
+		}
+		rn.usable(what, key, func() *tls.ClientHelloSpec {
 			s, _ := (&tls.Fingerprinter{AllowBluntMimicry: f.blunt, AlwaysAddPadding: f.always, RealPSKResumption: f.real}).FingerprintClientHello(append([]byte{}, raw...))
 			return s
 		}, map[string]any{"flags": f.String(), "raw_hex": vh.Hex(raw)})
@@ -272,18 +282,38 @@ func (rn *runner) genHello(nExt int) hello {
 	if nExt >= 0 {
 		var ex []byte
 		var offs []int
+		// a valid hello: no extension type twice, pre_shared_key last
+		seen := map[uint16]bool{}
+		var parts [][]byte
+		var psk []byte
 		for i := 0; i < nExt; i++ {
-			offs = append(offs, len(ex)+2)
+			var e []byte
 			switch r.Intn(12) {
 			case 0: // unknown id
 				body := make([]byte, r.Intn(6))
 				r.Read(body)
 				id := uint16(100 + r.Intn(1000))
-				ex = append(ex, byte(id>>8), byte(id), 0, byte(len(body)))
-				ex = append(ex, body...)
+				e = append([]byte{byte(id >> 8), byte(id), 0, byte(len(body))}, body...)
 			default:
-				ex = append(ex, rn.extBytes(6)...)
+				e = rn.extBytes(6)
 			}
+			id := binary.BigEndian.Uint16(e)
+			if seen[id] {
+				continue
+			}
+			seen[id] = true
+			if id == 41 {
+				psk = e
+			} else {
+				parts = append(parts, e)
+			}
+		}
+		if psk != nil {
+			parts = append(parts, psk)
+		}
+		for _, e := range parts {
+			offs = append(offs, len(ex)+2)
+			ex = append(ex, e...)
 		}
 		h.lenOffs = append(h.lenOffs, len(b))
 		base := len(b) + 2
@@ -304,7 +334,9 @@ func (rn *runner) genHello(nExt int) hello {
 func (rn *runner) mutate(h hello) ([]byte, string) {
 	r := rn.r
 	b := append([]byte{}, h.raw...)
-	switch r.Intn(7) {
+	switch r.Intn(8) {
+	case 7:
+		return reorderExts(b, r), "reorder-or-repeat"
 	case 0:
 		return b[:r.Intn(len(b)+1)], "truncate"
 	case 1:
@@ -481,3 +513,84 @@ func parrots() []parrot {
 	return out
 }
 
+
+// extList follows FromRaw's path through a record and returns the extensions (id, whole
+// encoding) and the offset where the extensions vector starts; ok=false when the framing breaks.
+func extList(raw []byte) (ids []uint16, encs [][]byte, start int, ok bool) {
+	if len(raw) < 44 {
+		return nil, nil, 0, false
+	}
+	p := 43
+	p += 1 + int(raw[p]) // session id
+	if p+2 > len(raw) {
+		return nil, nil, 0, false
+	}
+	p += 2 + int(binary.BigEndian.Uint16(raw[p:]))
+	if p+1 > len(raw) {
+		return nil, nil, 0, false
+	}
+	p += 1 + int(raw[p])
+	if p == len(raw) {
+		return nil, nil, p, true
+	}
+	if p+2 > len(raw) {
+		return nil, nil, 0, false
+	}
+	n := int(binary.BigEndian.Uint16(raw[p:]))
+	start = p
+	p += 2
+	if p+n > len(raw) {
+		return nil, nil, 0, false
+	}
+	ex := raw[p : p+n]
+	for len(ex) > 0 {
+		if len(ex) < 4 || 4+int(binary.BigEndian.Uint16(ex[2:])) > len(ex) {
+			return nil, nil, 0, false
+		}
+		l := 4 + int(binary.BigEndian.Uint16(ex[2:]))
+		ids = append(ids, binary.BigEndian.Uint16(ex))
+		encs = append(encs, ex[:l])
+		ex = ex[l:]
+	}
+	return ids, encs, start, true
+}
+
+// shapeValid: no extension type twice and pre_shared_key, when present, last (RFC 8446 4.2, 4.2.11).
+func shapeValid(raw []byte) bool {
+	ids, _, _, ok := extList(raw)
+	if !ok {
+		return false
+	}
+	seen := map[uint16]bool{}
+	for i, id := range ids {
+		if seen[id] || (id == 41 && i != len(ids)-1) {
+			return false
+		}
+		seen[id] = true
+	}
+	return true
+}
+
+// reorderExts swaps two extensions or repeats one (lengths kept consistent).
+func reorderExts(raw []byte, r *rand.Rand) []byte {
+	_, encs, start, ok := extList(raw)
+	if !ok || len(encs) < 1 {
+		return raw
+	}
+	i, j := r.Intn(len(encs)), r.Intn(len(encs))
+	if i == j {
+		encs = append(encs, encs[i])
+	} else {
+		encs[i], encs[j] = encs[j], encs[i]
+	}
+	var ex []byte
+	for _, e := range encs {
+		ex = append(ex, e...)
+	}
+	out := append([]byte{}, raw[:start]...)
+	out = append(out, byte(len(ex)>>8), byte(len(ex)))
+	out = append(out, ex...)
+	binary.BigEndian.PutUint16(out[3:5], uint16(len(out)-5))
+	out[6], out[7], out[8] = byte((len(out)-9)>>16), byte((len(out)-9)>>8), byte(len(out)-9)
+	return out
+}
